@@ -61,7 +61,12 @@ func verifC03Observation(ctx context.Context) {
 			m.Addr = a[:]
 		}
 	} else {
-		m = &gossipv1.SignedObservation{Addr: zzverif.Blob("adv.addr", 20), Hash: zzverif.Blob("adv.hash", 32), Signature: zzverif.Blob("adv.sig", 65)}
+		var addrs [][]byte // replay hints only (see BlobLike): the bytes stay unconstrained
+		for j := 0; j < 4; j++ {
+			a := zzverif.AddrOf(j)
+			addrs = append(addrs, a[:])
+		}
+		m = &gossipv1.SignedObservation{Addr: zzverif.BlobLike("adv.addr", 20, addrs...), Hash: zzverif.BlobLike("adv.hash", 32, digest), Signature: zzverif.Blob("adv.sig", 65)}
 	}
 	mhash := hex.EncodeToString(m.Hash)
 	// snapshot
